@@ -170,3 +170,11 @@ claim("C04", "model_checking", "TLA+ reference semantics + index-space model (TL
       "Trusted: TLC, V8's validator and engine, the name-section decoder of the driver. 'Equal to WABT's output' is not decidable here (WABT absent): replaced by validity + specified "
       "behaviour + name-section rule. Data/elem/start/table sections are exercised by C06's modules only.",
       "DESIGN.md section 4 (WebAssembly hub)")
+
+claim("C05", "exploration", "TLA+ module-space generator (TLC enumerates the feature product) + identity replay: print(parse(m)) assembles to the same bytes, printing idempotent",
+      "WatGen.tla describes a module as one choice per section kind (memory limits incl. max = min, tables, globals, data segments with escapes, imports named/anonymous/global, "
+      "exports inline/standalone/memory+global, start, elem, three body shapes); TLC enumerates the 18 480 consistent combinations and the harness renders each as WAT. For every one, "
+      "and for the hub's modules, the compiler's output for seven programs and every .wat file in the repository that Wa's assembler accepts, "
+      "Wat2Wasm(print(parse(src))) must equal Wat2Wasm(src) byte for byte (name section included) and print must be idempotent.",
+      "Role G (bounded-exhaustive generator with an identity oracle): level exploration. 'Accepted by the reference assembler' is not decidable (WABT absent).",
+      "DESIGN.md section 4 (WebAssembly hub, E5)")
